@@ -66,7 +66,7 @@ deriving Repr, DecidableEq, BEq, Hashable
 
 /-- `close()` on some thread -/
 inductive CPc where
-  | c0            -- clear the disconnect callback
+  | c0            -- clear the disconnect callback (skipped when `_protocol` is unassigned: see `callClose`)
   | c1            -- acquire the transport lock
   | c2            -- alive := false
   | c3 (deadline : Nat)   -- join(R, 2 s)
@@ -142,8 +142,14 @@ structure St where
   wire : List (Nat × String × Option Nat) := []     -- oldest first: (time, text, id of the user command or none for a probe)
   log : List LogEntry := []                          -- unbounded log, oldest first (the ring shows the last `logSize`)
   discCalls : Nat := 0
-  closeStarted : Bool := false                       -- some close() has cleared the disconnect callback
+  closeStarted : Bool := false                       -- some close() has cleared the disconnect callback (step c0; only a close() that
+                                                     -- found `_protocol` assigned does that)
   closeReturned : Bool := false
+  closeUnpub : Bool := false                         -- some close() was entered on a connection whose connect() never completed (reader started,
+                                                     -- `_protocol` unassigned): stop/join/port-close WITHOUT clearing the disconnect callback
+  unpubCloseAt : Nat := 0                            -- time at which the first such close() was entered
+  unpubClosers : List Tid := []                      -- threads currently inside such a close()
+  unpubCloseReturned : Bool := false                 -- such a close() has returned
   madeAt : Nat := 0                                  -- time at which connection_made started the sender
   probesStarted : Nat := 0                           -- number of probes flagged so far (s1 events)
   probesAtClear : Nat := 0                           -- value of `probesStarted` when the flag was last cleared
@@ -266,7 +272,9 @@ def stepClose (P : Params) (s : St) (t : Tid) (pc : CPc) : Option (St × Option 
   | .c3 dl => if s.rpc = .done ∨ s.rpc = .notStarted ∨ dl ≤ s.now then some (setUpc s t (.closing .c4), none) else none
   | .c4 => some (setUpc { s with portOpen := false } t (.closing .c5), if s.portOpen then some .portClose else none)
   | .c5 => some (setUpc { s with lock := none } t (.closing .c6), none)
-  | .c6 => some (setUpc { s with closeReturned := true } t .idle, some (.callRet t))
+  | .c6 => some (setUpc { s with closeReturned := true,
+                                 unpubCloseReturned := s.unpubCloseReturned || s.unpubClosers.contains t,
+                                 unpubClosers := s.unpubClosers.filter (· != t) } t .idle, some (.callRet t))
 
 def stepU (P : Params) (s : St) (t : Tid) : Option (St × Option Obs) :=
   match upcOf s t with
@@ -307,7 +315,20 @@ def step (P : Params) (s : St) : Label → Option (St × Option Obs)
   | .callClose t =>
     if mayCall s t then
       if s.published then some (setUpc s t (.closing .c0), none)
-      else some (setUpc s t .returning, none)                -- never connected: nothing to do, returns at once
+      else if s.rpc ≠ .notStarted then
+        -- `_protocol` is unassigned (connect() failed or has not returned yet) but `_readerthread` is set: the
+        -- disconnect callback is NOT cleared (`if self._protocol:` is false), the rest of close() runs as usual —
+        -- on a caller thread `ReaderThread.close()` in full (lock, stop = alive := false + join(2 s), serial.close(),
+        -- unlock), on the reader thread itself (inside a callback that runs before connect() has returned) the
+        -- no-join variant
+        if t = tidR then
+          some (setUpc { s with closeUnpub := true,
+                                unpubCloseAt := bif s.closeUnpub then s.unpubCloseAt else s.now } t (.closing .r1), none)
+        else
+          some (setUpc { s with closeUnpub := true,
+                                unpubCloseAt := bif s.closeUnpub then s.unpubCloseAt else s.now,
+                                unpubClosers := t :: s.unpubClosers } t (.closing .c1), none)
+      else some (setUpc s t .returning, none)                -- the reader thread was never started: nothing to do, returns at once
     else none
   | .reg _ cb => some ({ s with msgCbs := if s.msgCbs.contains cb then s.msgCbs else s.msgCbs ++ [cb] }, none)
   | .unreg _ cb => some ({ s with msgCbs := s.msgCbs.filter (· != cb) }, none)
